@@ -3,7 +3,7 @@ canonicalisation of suspended states (so that equal abstract states are recognis
 generic exploration loop over cut points."""
 from . import iset
 from .absint import (Agg, Conc, Expr, FnItem, Obj, Ref, State, Str, Sym, Top, Undecided, Uninit, V)
-from .summ import AIter, AVec, LogVec, Ordlen, Ordv
+from .summ import AIter, AVec, AZip, LogVec, Ordlen, Ordv
 
 
 # ---------------------------------------------------------------------------------------------
@@ -216,6 +216,9 @@ class Canon:
                             work.append(Obj(cid))
                     elif isinstance(m, AIter):
                         work.append(Obj(m.vec))
+                    elif isinstance(m, AZip):
+                        work.append(Obj(m.a))
+                        work.append(Obj(m.b))
             elif isinstance(v, Ordv):
                 if isinstance(v.space, tuple) and v.space[0] == "len":
                     work.append(Obj(v.space[1]))
@@ -311,6 +314,10 @@ class Canon:
                 heap_out.append((objn[oid], "log", m.role, ("ord", sp, m.n), tuple((("ord", sp, n), oname(cid)) for n, cid in m.cells)))
                 for n, _ in m.cells:
                     ords[sp].add(n)
+            elif isinstance(m, AIter):
+                heap_out.append((objn[oid], "aiter", m.role, oname(m.vec), m.pos, m.end))
+            elif isinstance(m, AZip):
+                heap_out.append((objn[oid], "azip", oname(m.a), oname(m.b)))
             elif m is None:
                 heap_out.append((objn[oid], "gone"))
             else:
